@@ -730,6 +730,26 @@ class Backend:
             return x
         if isinstance(x, NArr) and x.isreal:
             return x
+        if isinstance(x, NArr) and x.ndim == 1 and not x.pending and not x.grid:
+            # Re(sum_w c_w w) over vector words: a real vector atom keeps Re(c_w); a complex word w is abstracted into the
+            # REAL vector atom Re[w] (sound: all that is used is that it is real); only real multiples c of complex words are handled
+            C = nc.ctx()
+            v = nc.normalise(x.val)
+            out = NC({}, v.rows, v.cols)
+            half = A.lift(Fraction(1, 2))
+            for w, c in v.t.items():
+                c = A.lift(c)
+                cre = (c + c.conjugate()) * half
+                if len(w) == 1 and w[0].real:
+                    out = out + NC({w: cre}, v.rows, v.cols)
+                    continue
+                if len(w) == 0:
+                    raise A.OutsideSubset("real part of a scalar word in a vector")
+                if not A.is_zero(c - c.conjugate()):
+                    raise A.OutsideSubset("real part of a complex multiple of a complex vector")
+                re = C.atom("Re[" + "·".join(a.name for a in w) + "]", v.rows, 1, real=True)
+                out = out + NC({(re,): cre}, v.rows, v.cols)
+            return NArr(out, x.shape, real=True)
         raise A.OutsideSubset("real part of a complex array")
 
     def asarray(self, x, dtype=None, **kw):
